@@ -9,7 +9,7 @@ E2: behaviours simulated by TLC are executed on DigitalMetadataWriter / DigitalM
 E3: real-scale configurations and value shapes; every call is one event, TLC decides every answer."""
 from . import md_common as mc
 
-PREFIXES = ("C12-",)
+PREFIXES = ("C12-", "C20-tree-changed-after-a-call-had-returned")
 replay = mc.replay
 
 
